@@ -1426,6 +1426,10 @@ impl<'de, R: Read<'de>> Parser<R> {
 
     #[cfg(not(feature = "fast-float-parsing"))]
     fn f64_from_parts(&mut self, pos: bool, significand: u64, exponent: i32) -> Result<f64> {
+        self.f64_from_parts_exact(pos, significand, exponent)
+    }
+
+    fn f64_from_parts_exact(&mut self, pos: bool, significand: u64, exponent: i32) -> Result<f64> {
         // Slow path -- in the `fast-float-parsing` variant, we
         // potentially lose digits by casting `significand` (which is
         // may exceeds 52 bits) to `f64`, as well as by the divisions
@@ -1464,7 +1468,9 @@ impl<'de, R: Read<'de>> Parser<R> {
                     if exponent >= 0 {
                         f *= pow;
                         if f.is_infinite() {
-                            return Err(self.error(ErrorCode::NumberOutOfRange));
+                            // The rounding errors of the fast path can push a value just below
+                            // the largest double over the edge; let the exact path decide.
+                            return self.f64_from_parts_exact(pos, significand, exponent);
                         }
                     } else {
                         f /= pow;
